@@ -14,15 +14,20 @@ def run(cmd):
     return r.returncode, (r.stdout + r.stderr)[-1500:]
 try:
     demo = [f for f in os.listdir(out) if f.endswith("_test.go")]
+    import re
+    names = []
+    for f in demo:
+        names += re.findall(r"^func (Test\w+)\(", open(os.path.join(out, f)).read(), flags=re.M)
+    runre = "^(" + "|".join(names) + ")$"
     for f in demo:
         shutil.copy(os.path.join(out, f), os.path.join(wt, pkg, f))
-    rc, o = run(["go", "test", "-vet=off", "-count=1", "-run", "Demo|Seed|demo", "./" + pkg])
+    rc, o = run(["go", "test", "-vet=off", "-count=1", "-run", runre, "./" + pkg])
     res["demo_unchanged_passes"] = rc == 0
     if rc != 0: res["demo_unchanged_out"] = o
     rc, o = run(["git", "apply", os.path.join(out, "patch.diff")])
     res["patch_applies"] = rc == 0
     res["build"] = run(["go", "build", "./..."])[0] == 0 and run(["go", "build", "-tags", "verif", "./..."])[0] == 0
-    rc, o = run(["go", "test", "-vet=off", "-count=1", "-run", "Demo|Seed|demo", "./" + pkg])
+    rc, o = run(["go", "test", "-vet=off", "-count=1", "-run", runre, "./" + pkg])
     res["demo_patched_fails"] = rc != 0
     res["demo_patched_out"] = o[-400:]
     for f in demo:
